@@ -10,7 +10,7 @@ class Unsupported(Exception):
 
 class Node:
     __slots__ = ("cls", "num", "constructed", "content", "children", "is_string", "bits_unused",
-                 "is_set", "is_setof", "unknown_ext")
+                 "is_set", "is_setof", "unknown_ext", "kind", "wrapper")
 
     def __init__(self, cls, num, constructed, content=None, children=None, is_string=False):
         self.cls = cls
@@ -23,6 +23,8 @@ class Node:
         self.is_set = False
         self.is_setof = False
         self.unknown_ext = False
+        self.kind = None            # ASN.1 kind of the node (strings)
+        self.wrapper = False        # an EXPLICIT-tag wrapper around the node of the same type
 
 
 def enc_tag(cls, num, constructed):
@@ -115,8 +117,13 @@ def string_octets(kind, v):
 
 
 class Encoder:
-    def __init__(self, mod):
+    def __init__(self, mod, emit_defaults=False, shuffle=None, true_octet=0xff, unknown_ext=None):
         self.mod = mod
+        self.emit_defaults = emit_defaults      # BER: DEFAULT-equal components may be present
+        self.shuffle = shuffle                  # rng: SET components / SET OF elements in any order
+        self.true_octet = true_octet            # BER: any non-zero octet means TRUE
+        self.unknown_ext = unknown_ext          # rng: add unknown extension additions to extensible SEQUENCE/SET
+        self.used = set()
 
     # -- public
     def encode(self, t, v):
@@ -134,17 +141,22 @@ class Encoder:
             inner = self.tree(c.type, av, mod.comp_chain(c))
             for cls, num in reversed(chain):
                 inner = Node(cls, num, True, children=[inner])
+                inner.wrapper = True
             return inner
         node = self.base_node(rt, v, chain[-1])
+        node.kind = rt.kind
         for cls, num in reversed(chain[:-1]):
             node = Node(cls, num, True, children=[node])
+            node.wrapper = True
         return node
 
     def base_node(self, rt, v, tag):
         cls, num = tag
         k = rt.kind
         if k == "BOOLEAN":
-            return Node(cls, num, False, b"\xff" if v else b"\x00")
+            if v and self.true_octet != 0xff:
+                self.used.add("true-not-ff")
+            return Node(cls, num, False, bytes([self.true_octet]) if v else b"\x00")
         if k in ("INTEGER", "ENUMERATED"):
             return Node(cls, num, False, int_octets(v))
         if k == "NULL":
@@ -169,25 +181,59 @@ class Encoder:
             return Node(cls, num, False, string_octets(k, v), is_string=True)
         if k in ("SEQUENCE", "SET"):
             children = []
+            ext_pos = None
             for c in rt.all_comps_textual():
+                if rt.comps2 is not None and c is rt.comps2[0]:
+                    ext_pos = len(children)
                 if c.name not in v:
+                    if c.has_default and self.emit_defaults and self.mod.resolve(c.type).kind in ("BOOLEAN", "INTEGER", "ENUMERATED"):
+                        children.append(self.tree(c.type, c.default, self.mod.comp_chain(c)))
+                        self.used.add("default-present")
                     continue
                 if c.has_default and values_equal(v[c.name], c.default):
-                    continue
+                    if not self.emit_defaults:
+                        continue
+                    self.used.add("default-present")
                 children.append(self.tree(c.type, v[c.name], self.mod.comp_chain(c)))
+            if ext_pos is None:
+                ext_pos = len(children)
+            if self.unknown_ext is not None and rt.ext is not None and self.unknown_ext.random() < 0.7:
+                rng = self.unknown_ext
+                for i in range(rng.choice([1, 1, 2])):
+                    children.insert(ext_pos + i, _unknown_tlv(rng, 9000 + i))
+                self.used.add("unknown-ext")
             n = Node(cls, num, True, children=children)
             if k == "SET":
                 n.is_set = True
-                n.children.sort(key=lambda ch: (CLS_BITS[ch.cls], ch.num))
+                if self.shuffle is not None and len(n.children) > 1:
+                    self.shuffle.shuffle(n.children)
+                    self.used.add("set-order")
+                else:
+                    n.children.sort(key=lambda ch: (CLS_BITS[ch.cls], ch.num))
             return n
         if k in ("SEQUENCE OF", "SET OF"):
             children = [self.tree(rt.elem, e) for e in v]
             n = Node(cls, num, True, children=children)
             if k == "SET OF":
                 n.is_setof = True
-                n.children.sort(key=lambda ch: serialize(ch))
+                if self.shuffle is not None and len(n.children) > 1:
+                    self.shuffle.shuffle(n.children)
+                    self.used.add("setof-order")
+                else:
+                    n.children.sort(key=lambda ch: serialize(ch))
             return n
         raise Unsupported(k)
+
+
+def _unknown_tlv(rng, num, depth=0):
+    """an extension addition the receiver does not know: private-class tag, primitive or constructed"""
+    if depth < 2 and rng.random() < 0.4:
+        kids = [_unknown_tlv(rng, rng.randrange(0, 40), depth + 1) for _ in range(rng.choice([0, 1, 2]))]
+        n = Node("P", num, True, children=kids)
+    else:
+        n = Node("P", num, False, bytes(rng.getrandbits(8) for _ in range(rng.choice([0, 1, 3, 200]))))
+    n.unknown_ext = True
+    return n
 
 
 def values_equal(a, b):
